@@ -14,25 +14,37 @@ Proof.
   intros. split. eapply slice_range_bounds; eauto. apply slice_range_nodup. eapply slice_indices_bounds; eauto.
 Qed.
 
-Lemma c02_history_list_partial_proof : forall q r tid fl, no_quirks q -> forall h st its,
-  wfs st -> root_is st r tid KList fl its -> clean its -> lhist2_ok fl (evals its) h ->
-  option_map erase (get_root (run_ops2 q st (on_root2 r h)) r) = Some (plist (lhist2_py (evals its) h)) /\
-  wfs (run_ops2 q st (on_root2 r h)).
+Lemma c02_history_list_proof : forall q ps tid pa fl, no_quirks q -> forall h st its,
+  wfs st -> at_is st ps tid KList pa fl its -> clean its -> anc_clean st ps -> lhist2_ok fl (evals its) h ->
+  option_map erase (get_at (run_ops2 q st (on_pos2 ps h)) ps) = Some (plist (lhist2_py (evals its) h)) /\
+  wfs (run_ops2 q st (on_pos2 ps h)).
 Proof.
   intros. split. eapply history2_list_erase; eauto.
-  destruct (history2_list_refines q r tid fl H h st its H0 H1 H2 H3) as (? & ? & ? & ? & ?); auto.
+  destruct (history2_list_refines q ps tid pa fl H h st its H0 H1 H2 H3 H4) as (? & ? & ? & ? & ? & ?); auto.
 Qed.
-
-Lemma c02_history_dict_partial_proof : forall q r tid fl, no_quirks q -> forall h st its,
-  wfs st -> root_is st r tid KDict fl its -> clean its -> dhist_ok fl (eitems its) h ->
-  option_map erase (get_root (run_ops q st (on_root r h)) r) = Some (PNode KDict (dhist_py (eitems its) h)).
-Proof. intros. eapply history_dict_erase; eauto. Qed.
+Lemma c02_history_dict_proof : forall q ps tid pa fl, no_quirks q -> forall h st its,
+  wfs st -> at_is st ps tid KDict pa fl its -> clean its -> anc_clean st ps -> dhist_ok fl (eitems its) h ->
+  option_map erase (get_at (run_ops q st (on_pos ps h)) ps) = Some (PNode KDict (dhist_py (eitems its) h)) /\
+  wfs (run_ops q st (on_pos ps h)).
+Proof.
+  intros. split. eapply history_dict_erase; eauto.
+  destruct (history_dict_refines q ps tid pa fl H h st its H0 H1 H2 H3 H4) as (? & ? & ? & ? & ? & ?); auto.
+Qed.
 
 Lemma c02_history_hypotheses_example_proof :
   wfs ex_state /\
-  (root_is ex_state 0 1%N KList default_flags ex_list_items /\ clean ex_list_items /\ lhist2_ok default_flags (evals ex_list_items) ex_list_history) /\
-  (root_is ex_state 1 3%N KDict default_flags ex_dict_items /\ clean ex_dict_items /\ dhist_ok default_flags (eitems ex_dict_items) ex_dict_history).
-Proof. exact (conj ex_state_wfs (conj ex_list_hypotheses ex_dict_hypotheses)). Qed.
+  (at_is ex_state (0%nat, []) 1%N KList None default_flags ex_list_items /\ clean ex_list_items /\ anc_clean ex_state (0%nat, []) /\
+   lhist2_ok default_flags (evals ex_list_items) ex_list_history) /\
+  (at_is ex_state (1%nat, []) 3%N KDict None default_flags ex_dict_items /\ clean ex_dict_items /\ anc_clean ex_state (1%nat, []) /\
+   dhist_ok default_flags (eitems ex_dict_items) ex_dict_history) /\
+  (at_is ex_state ex_nested_pos 2%N KDict (Some 1%N) default_flags ex_nested_items /\ clean ex_nested_items /\
+   anc_clean ex_state ex_nested_pos /\ dhist_ok default_flags (eitems ex_nested_items) ex_nested_history).
+Proof.
+  split; [exact ex_state_wfs|]. destruct ex_list_hypotheses as (A1 & A2 & A3). destruct ex_dict_hypotheses as (B1 & B2 & B3).
+  split; [exact (conj A1 (conj A2 (conj (anc_clean_root _ _) A3)))|].
+  split; [exact (conj B1 (conj B2 (conj (anc_clean_root _ _) B3)))|].
+  exact ex_nested_hypotheses.
+Qed.
 
 Lemma c02_readback_list_proof : forall i0 pa pt fl its,
   let n := Node i0 KList pa pt fl its in
@@ -52,7 +64,6 @@ Proof.
   - apply read_len. - apply read_getitem. - apply read_getslice. - apply read_contains. - apply read_index.
   - apply read_count. - apply read_list_eq. - apply pvals_eitems.
 Qed.
-
 Lemma c02_readback_dict_proof : forall i0 pa pt fl its,
   let n := Node i0 KDict pa pt fl its in
   py_dstep (eitems its) PyDict.PDLen = inl (eitems its, PyDict.DrInt (r_len n)) /\
